@@ -261,7 +261,7 @@ class World:
                 for k_, e_ in snap(r).items():
                     main[os.path.join(rel, k_)] = e_
         staged = [o for o in scan_objects(self.S) if o["root"] not in self.committed]
-        return {"objs": objs, "staged": staged, "main": main,
+        return {"objs": objs, "staged": staged, "main": main, "stg": snap(self.S),
                 "stg_ino": snap_ino(self.S), "src_ino": snap_ino(self.src), "sentinel": self.sentinel(),
                 "root_exists": os.path.isdir(self.root)}
 
@@ -370,6 +370,9 @@ def describe(w, step, pre):
     oid = step.get("id")
     d = {"kind": KIND[step["op"]], "hex": sha256_hex(oid) if oid is not None else "0" * 64, "id": oid,
          "srcs": [os.path.normpath(os.path.join(w.area, s)) for s in step.get("src", [])] if step["op"] == "mv_ext" else []}
+    # fs::canonicalize of the named sources that exist (symbolic links and ".." resolved by the kernel)
+    d["csrcs"] = [os.path.realpath(os.path.join(w.area, s)) for s in step.get("src", [])
+                  if os.path.exists(os.path.join(w.area, s))] if step["op"] == "mv_ext" else []
     S_o = os.path.join(w.S, st.hashed_ntuple(oid)) if oid is not None else None
     d["S_o"] = S_o
     staged = None
@@ -431,8 +434,9 @@ def coq_pre(pre, d):
 
 
 def coq_op(d):
-    return "(mkOp %s %s %s %s %s %s)" % (d["kind"], B(d["hex"]), B(d["head"]), d["rel_term"],
-                                          "true" if d["exists"] else "false", coq_list(P(s) for s in d["srcs"]))
+    return "(mkOp %s %s %s %s %s %s %s)" % (d["kind"], B(d["hex"]), B(d["head"]), d["rel_term"],
+                                             "true" if d["exists"] else "false", coq_list(P(s) for s in d["srcs"]),
+                                             coq_list(P(s) for s in d["csrcs"]))
 
 
 def run_step(w, env, step, pre, inject=None, timeout=90):
@@ -480,19 +484,43 @@ def purged_objects(rec):
 
 
 def mv_source_in_repo(w, rec):
-    """the known-finding class: some named source of an external mv lies under (or contains) a root"""
+    """an external mv one of whose named sources (as the kernel resolves it) lies under, or contains, the storage
+    root or the staging root: refused up front since fix 128b230 (repo.rs:721-730)"""
     if rec["step"]["op"] != "mv_ext":
         return False
-    for s in rec["d"]["srcs"]:
-        if under(s, w.root) or under(w.root, s) or under(s, w.S) or under(w.S, s):
+    R, S = os.path.realpath(w.root), os.path.realpath(w.S)
+    for s in rec["d"]["csrcs"]:
+        if under(s, R) or under(R, s) or under(s, S) or under(S, s):
             return True
     return False
+
+
+def mv_refusal_oracle(w, rec):
+    """must-pass: such a mv is refused and nothing changes - main repository, staging area (apart from its
+    first-time creation) and the source area byte for byte, names and inodes"""
+    if not mv_source_in_repo(w, rec) or rec["inject"]:
+        return None
+    pre, post = rec["pre"], rec["post"]
+    if rec["rc"] == 0:
+        return "an external mv with a source inside (or containing) the repository was not refused"
+    if pre["main"] != post["main"]:
+        return "the refused mv changed the main repository: %r" % (diff_snap(pre["main"], post["main"]),)
+    if any(post["stg"].get(k) != e for k, e in pre["stg"].items()):
+        return "the refused mv changed the staging area: %r" % (diff_snap(pre["stg"], post["stg"]),)
+    a = {p: e[:2] for p, e in pre["src_ino"].items()}
+    b = {p: e[:2] for p, e in post["src_ino"].items()}
+    if a != b:
+        return "the refused mv changed the source area: %r" % (diff_snap(a, b),)
+    return None
 
 
 def c12_oracle(w, rec):
     """None or a message (model-free statement of C12 on one traced operation)"""
     step, d, pre, post = rec["step"], rec["d"], rec["pre"], rec["post"]
     srcs = d["srcs"]
+    m = mv_refusal_oracle(w, rec)
+    if m:
+        return m
     for op, ok, injected, errno in rec["calls"]:
         for n, p in enumerate(op_targets(op)):
             if not isinstance(p, str):
@@ -544,6 +572,9 @@ def c12_validity_oracle(w, env, rec, valid_before):
 def c03_oracle(w, rec):
     """None or a message (model-free statement of C03 on one traced operation)"""
     step, d, pre, post = rec["step"], rec["d"], rec["pre"], rec["post"]
+    m = mv_refusal_oracle(w, rec)
+    if m:
+        return m
     may_remove = set(purged_objects(rec))
     vdirs = []
     for o in pre["objs"]:
@@ -770,11 +801,24 @@ def long_id(n=300):
     return "L" + "x" * 120 + "/" + "y" * (n - 122)
 
 
+ABS_LITERALS = ("/abs", "/ab")          # where the literal absolute ids land when a guard regresses (0002/0006: /abs, 0007: /ab)
+_abs_leftover = [p for p in ABS_LITERALS if os.path.lexists(p)]
+
+
 def hostile_ids(w, layout):
     absolute_in_outer = os.path.join(w.outer, "abs-target")
+    pool = _hostile_ids(w, layout, absolute_in_outer)
+    if _abs_leftover:
+        # a directory left behind by an earlier regression run would be followed by the real code (it holds an
+        # object at the mapped path): leave the literal absolute ids out rather than report that run's debris
+        pool = [x for x in pool if not x[1].startswith("/abs") and ":/abs" not in x[1]]
+    return pool
+
+
+def _hostile_ids(w, layout, absolute_in_outer):
     pool = [
         ("dotdot", ".."), ("dotdot", "../x"), ("dotdot", "../../esc"), ("dotdot", "x/../y"), ("dotdot", "a/../../b"),
-        ("dotdot", "x/../../area/root-twin"), ("absolute", "/abs/path"), ("absolute", absolute_in_outer), ("curdir", "./x"),
+        ("dotdot", "x/../../area/root-twin"), ("dotdot-late", "batch-2024/../../escaped/obj"), ("dotdot-late", "nonexist/sub/../../../escaped2"), ("absolute", "/abs/path"), ("absolute", absolute_in_outer), ("curdir", "./x"),
         ("curdir", "."), ("nested", "a/b"), ("nested", "a/v1/content/deep"), ("above", "p"), ("prefix", "ab"), ("prefix", "a"),
         ("long", long_id()), ("quote", "q'uo\"te"), ("extensions", "extensions"), ("extensions", "extensions/rocfl-staging/x"),
         ("extensions", "extensions/x"), ("slash-end", "trail/"), ("space", "x y"), ("unicode", "ü/é"),
@@ -783,17 +827,19 @@ def hostile_ids(w, layout):
     if layout in ("0006", "0007"):
         pool += [("colon", "urn:x:.."), ("colon", "pre:../x"), ("colon", "a:1"), ("colon", "b:1"), ("colon", "x:."),
                  ("colon", "x:/abs/p"), ("colon", "urn:a/b"), ("colon", "n:extensions"), ("colon", "::"),
-                 ("colon", "k:a"), ("colon", "x:a/v1/content"), ("colon", "y:p")]
+                 ("colon", "k:a"), ("colon", "x:a/v1/content"), ("colon", "y:p"), ("dotdot-late", "z:batch-2024/../../escaped/obj"),
+                 ("nested", "z:a/v1/content/sub")]
     return pool
 
 
 HOSTILE_DST = [("dst-dotdot", "../x"), ("dst-abs", "/abs"), ("dst-dotdot", "a/../../b"), ("dst-dot", "."), ("dst-dotdot", ".."),
                ("dst-empty-seg", "a//b"), ("dst-dotdot", "d/../e.txt"), ("dst-slash", "/")]
-HOSTILE_ROOTS = [("root-dotdot", "../x"), ("root-abs", "/abs/root"), ("root-dotdot", "x/../../y"), ("root-nested", "objs/A/v1/in"),
+HOSTILE_ROOTS = [("root-dotdot-late", "newdir/../../escaped-root"), ("root-nested", "objs/A/v1/content/sub"), ("root-dotdot", "../x"), ("root-abs", "/abs/root"), ("root-dotdot", "x/../../y"), ("root-nested", "objs/A/v1/in"),
                  ("root-curdir", "."), ("root-empty", "/"), ("root-extensions", "extensions/rocfl-staging/zz"),
                  ("root-extensions", "extensions"), ("root-occupied", "objs/A"), ("root-ok", "//objs//H//"),
                  ("root-above", "objs"), ("root-dotdot", "objs/../../z"), ("root-curdir", "./objs/./H2")]
-HOSTILE_CDIR = [("cdir-dotdot", ".."), ("cdir-dot", "."), ("cdir-slash", "a/b"), ("cdir-slash", "/abs"), ("cdir-slash", "../x"),
+HOSTILE_CDIR = [("cdir-inventory", "inventory.json"), ("cdir-inventory", "inventory.json.sha512"), ("cdir-inventory", "inventory.jsonx"),
+                ("cdir-dotdot", ".."), ("cdir-dot", "."), ("cdir-slash", "a/b"), ("cdir-slash", "/abs"), ("cdir-slash", "../x"),
                 ("cdir-empty", ""), ("cdir-odd", "c d"), ("cdir-odd", "...")]
 CONTENTS = [b"", b"A", b"hello world\n", b"HELLO\n", b"dup-content", bytes(range(256)) * 2]
 NAMES = ["a.txt", "b.txt", "dir/c.txt", "dir/sub/e.txt", "x y.txt", "f"]
@@ -855,6 +901,11 @@ def gen_history(rng, w, n_random, stats):
               {"op": "reset", "id": A, "paths": ["dir/x.txt"]},
               commit(A),
               {"op": "cp_ext", "id": A, "src": [src_file("late.txt")], "dst": "late.txt"}]
+    # external mv whose named source is part of the repository in some spelling: refused since 128b230
+    specials = ["committed-file"] + rng.sample(SPECIAL_MV[1:], 3) + [rng.choice(SPECIAL_MV_OK)]
+    for sp in specials:
+        stats["hostile_mv_source_" + sp] = stats.get("hostile_mv_source_" + sp, 0) + 1
+        steps.append({"op": "mv_ext", "id": A, "special": sp, "dst": "stolen-%s/" % sp[:6], "hostile": "mv-" + sp})
     steps.append({"op": "upgrade", "id": A} if (a_spec10 and not spec10) else commit(A))
     known = {A: ["a.txt", "copy/a2.txt", "moved/new3.txt", "moved/b2.txt", "dir/x.txt", "dir/e/y.txt", "mv/m.txt", "late.txt", "mv/d/x.txt"]}
     # --- hostile ids
@@ -863,7 +914,11 @@ def gen_history(rng, w, n_random, stats):
     must = [x for x in pool if x[1] in ("../x", "a/b", "a/v1/content/deep", ".", "extensions/rocfl-staging/x", "pre:../x", "x:.",
                                         "x:a/v1/content", "p", "y:p", "/abs/path", "ab")]
     rng.shuffle(must)
-    chosen = must[:4] + [x for x in pool if x not in must][:3]
+    # always: ".." after a first segment that does not exist, and a root nested (depth >= 2) inside a committed
+    # version directory of object A (layouts 0002 / 0006 / none with -r)
+    always = [("dotdot-late", "z:batch-2024/../../escaped/obj" if lay == "0006" else "batch-2024/../../escaped/obj"),
+              ("nested", "z:a/v1/content/sub" if lay == "0006" else "a/v1/content/sub")]
+    chosen = always + must[:3] + [x for x in pool if x not in must][:2]
     for cls, hid in chosen:
         stats["hostile_id_" + cls] = stats.get("hostile_id_" + cls, 0) + 1
         cd = None
@@ -871,8 +926,8 @@ def gen_history(rng, w, n_random, stats):
             ccls, cd = rng.choice(HOSTILE_CDIR)
             stats["hostile_" + ccls] = stats.get("hostile_" + ccls, 0) + 1
         steps.append({"op": "new", "id": hid, "cdir": cd, "hostile": cls})
-        if cd in ("..", ".") or (cd is not None and "/" in cd):
-            steps.append({"op": "new", "id": hid, "hostile": cls})           # the refused name must not end the story
+        if cd is not None:
+            steps.append({"op": "new", "id": hid, "hostile": cls})           # a refused name must not end the story
         steps.append({"op": "cp_ext", "id": hid, "src": [src_file()], "dst": "h.txt", "hostile": cls})
         if rng.random() < 0.5:
             dcls, dst = rng.choice(HOSTILE_DST)
@@ -981,9 +1036,74 @@ def gen_history(rng, w, n_random, stats):
     return steps
 
 
+SPECIAL_MV = ["committed-file", "committed-file-dotdot", "symlink-to-committed-file", "via-symlink-dir", "staged-file",
+              "parent-of-root", "root-itself", "object-dir", "mixed", "staging-root"]
+# ("symlink-to-outside-file" is resolvable below but not drawn: mv of a source that is itself a symbolic link to a
+#  file renames the LINK into the object - after commit rocfl's own validator reports E090/E092; a C01 matter
+#  reported to the lead, not a footprint matter)
+SPECIAL_MV_OK = ["dir-with-symlink-inside"]
+
+
+def special_sources(w, pre, kind, rng):
+    """named sources of an external mv that are part of the repository in some spelling (must be refused), and two
+    spellings with symbolic links that are NOT part of it (must work without touching the link targets)"""
+    tgt = None
+    for o in pre["objs"]:
+        for v in o["versions"]:
+            cd = os.path.join(o["root"], v, o["cdir"])
+            for d_, _, fs in os.walk(cd):
+                for f in sorted(fs):
+                    tgt = os.path.join(d_, f)
+    w.nsrc += 1
+    sd = os.path.join(w.src, "sp%d" % w.nsrc)
+    os.makedirs(sd)
+    rel = lambda p: os.path.relpath(p, w.area)
+    if kind in ("parent-of-root",):
+        return [w.area]
+    if kind == "root-itself":
+        return [rel(w.root)]
+    if kind == "staging-root":
+        return [w.S] if os.path.isdir(w.S) else []
+    if kind == "staged-file":
+        files = sorted(p for p, e in pre["stg_ino"].items() if e[0] == "f" and "/rocfl-locks/" not in p)
+        return [rel(files[-1])] if files else []
+    if tgt is None:
+        return []
+    if kind == "committed-file":
+        return [rel(tgt)]
+    if kind == "committed-file-dotdot":
+        return [os.path.join(rel(sd), "..", "..", rel(tgt))]
+    if kind == "symlink-to-committed-file":
+        os.symlink(tgt, os.path.join(sd, "lnk.txt"))
+        return [rel(os.path.join(sd, "lnk.txt"))]
+    if kind == "via-symlink-dir":
+        os.symlink(w.root, os.path.join(sd, "rootlnk"))
+        return [os.path.join(rel(sd), "rootlnk", os.path.relpath(tgt, w.root))]
+    if kind == "object-dir":
+        return [rel(pre["objs"][-1]["root"])]
+    if kind == "mixed":
+        with open(os.path.join(sd, "plain.txt"), "wb") as f:
+            f.write(b"plain")
+        return [rel(os.path.join(sd, "plain.txt")), rel(tgt)]
+    if kind == "dir-with-symlink-inside":
+        dd = os.path.join(sd, "dl")
+        os.makedirs(os.path.join(dd, "sub"))
+        with open(os.path.join(dd, "sub", "real.txt"), "wb") as f:
+            f.write(b"real")
+        os.symlink(tgt, os.path.join(dd, "to-committed.txt"))
+        os.symlink(os.path.dirname(tgt), os.path.join(dd, "sub", "to-committed-dir"))
+        return [rel(dd)]
+    if kind == "symlink-to-outside-file":
+        with open(os.path.join(sd, "target.txt"), "wb") as f:
+            f.write(b"target")
+        os.symlink(os.path.join(sd, "target.txt"), os.path.join(sd, "l2.txt"))
+        return [rel(os.path.join(sd, "l2.txt"))]
+    return []
+
+
 # --------------------------------------------------------------------------- running histories
 
-def run_history(ctx, env, hno, layout, ext, ext_missing, seed, n_random, stats, with_validity, known_every=0, fault_budget=0):
+def run_history(ctx, env, hno, layout, ext, ext_missing, seed, n_random, stats, with_validity, fault_budget=0):
     """returns list of records (fault-injected re-runs included, marked by rec['inject'])"""
     import random
     rng = random.Random(seed)
@@ -1001,25 +1121,16 @@ def run_history(ctx, env, hno, layout, ext, ext_missing, seed, n_random, stats, 
         rng.shuffle(cand)
         commits = [n for n in cand if steps[n]["op"] in ("commit", "upgrade")]
         fault_steps = set(commits[:max(1, fault_budget // 2)] + cand[:fault_budget - min(len(commits), max(1, fault_budget // 2))])
-    known_at = set()
-    if known_every:
-        # the known finding: an external mv whose source is a committed content file / a staged file
-        known_at.add(min(len(steps) - 1, 9 + rng.randrange(4)))
     n = 0
     while n < len(steps):
         step = steps[n]
-        if n in known_at:
-            tgt = None
-            for o in pre["objs"]:
-                for v in o["versions"]:
-                    cd = os.path.join(o["root"], v, o["cdir"])
-                    for d_, _, fs in os.walk(cd):
-                        for f in fs:
-                            tgt = os.path.join(d_, f)
-            if tgt is not None and pre["objs"]:
-                step = {"op": "mv_ext", "id": pre["objs"][0]["id"] or "a", "src": [os.path.relpath(tgt, w.area)], "dst": "stolen.txt", "known": True}
-                steps.insert(n, step)
-                known_at = set(x + 1 for x in known_at if x > n)
+        if step.get("special") and "src" not in step:
+            step["src"] = special_sources(w, pre, step["special"], rng)
+            if not step["src"]:
+                n += 1
+                continue
+            pre = dict(pre)
+            pre["src_ino"] = snap_ino(w.src)             # the sources were materialised just now
         bak = None
         if n in fault_steps:
             bak = base + ".bak"
@@ -1058,8 +1169,8 @@ def run_history(ctx, env, hno, layout, ext, ext_missing, seed, n_random, stats, 
             shutil.rmtree(bak, ignore_errors=True)
         pre = rec["post"]
         n += 1
-    for p in ("/abs",):              # only a regression of the guards creates it (the trace oracle reports the call)
-        if os.path.lexists(p):
+    for p in ABS_LITERALS:           # only a regression of the guards creates them (the trace oracle reports the call)
+        if p not in _abs_leftover and os.path.lexists(p):
             shutil.rmtree(p, ignore_errors=True)
     return w, recs
 
@@ -1074,7 +1185,7 @@ def plan_worlds(ctx, n_worlds):
     return out
 
 
-def run_all(ctx, env, n_worlds, n_random, with_validity, fault_budget, known_worlds=2):
+def run_all(ctx, env, n_worlds, n_random, with_validity, fault_budget):
     plans = plan_worlds(ctx, n_worlds)
     seeds = [ctx.rng.randrange(1 << 30) for _ in plans]
     stats = {}
@@ -1087,7 +1198,7 @@ def run_all(ctx, env, n_worlds, n_random, with_validity, fault_budget, known_wor
         lay, ext, miss = plans[i]
         local = {}
         w, recs = run_history(ctx, env, i, lay, ext, miss, seeds[i], n_random, local, with_validity,
-                              known_every=1 if i < known_worlds else 0, fault_budget=fault_budget if i % 2 == 0 else 0)
+                              fault_budget=fault_budget if i % 2 == 0 else 0)
         with lock:
             for k, v in local.items():
                 stats[k] = stats.get(k, 0) + v
@@ -1119,13 +1230,6 @@ def pretty(v):
     t = _SEG.sub(seg, v)
     t = re.sub(r"\[(<[^\[\]]*>(?:; <[^\[\]]*>)*)\]", lambda m: "/" + "/".join(x[1:-1] for x in m.group(1).split("; ")), t)
     return t
-
-
-KNOWN_SLUG = "mv-source-in-repo"
-
-
-def known_registered(ctx):
-    return any(k.get("id") == KNOWN_SLUG for k in ctx.known)
 
 
 def evaluate(ctx, prop, out, stats, imports=("Base.Bytes", "Model.FsOps", "Model.Footprint", "Corr.CheckFootprint")):
@@ -1161,6 +1265,16 @@ def evaluate(ctx, prop, out, stats, imports=("Base.Bytes", "Model.FsOps", "Model
                     if renames:
                         terms.append("check_main_root %s %s %s" % (coq_cfg(w), coq_op(d), P(renames[0][2])))
                         owners.append(("mainroot", w, rec))
+            if step["op"] == "new" and step.get("cdir") is not None and not rec["inject"]:
+                refused_cdir = rec["rc"] != 0 and "The content directory" in rec["stderr"]
+                if rec["rc"] == 0 or refused_cdir:
+                    terms.append("check_cdir %s %s" % (B(step["cdir"]), "true" if rec["rc"] == 0 else "false"))
+                    owners.append(("cdir", w, rec))
+            if step["op"] in ("cp_ext", "cp_int", "mv_int") and step.get("hostile", "").startswith("dst-") and not rec["inject"]:
+                refused_dst = rec["rc"] != 0 and "Paths may not contain" in rec["stderr"]
+                if refused_dst or rec["rc"] == 0:
+                    terms.append("check_lpath %s %s" % (B(step["dst"]), "true" if rec["rc"] == 0 else "false"))
+                    owners.append(("lpath", w, rec))
             if step["op"] == "new" and rec["rc"] == 0 and not rec["inject"]:
                 locks = [op[1] for op, ok, _, _ in rec["calls"] if ok and op[0] == "createnew" and "/rocfl-locks/" in op[1]]
                 found = [o["root"] for o in rec["post"]["staged"] if o["id"] == step["id"].strip()]
@@ -1202,17 +1316,11 @@ def evaluate(ctx, prop, out, stats, imports=("Base.Bytes", "Model.FsOps", "Model
                 msg = rec.get("validity_msg")
             observed = {"rc": rec["rc"], "killed": rec["killed"], "stderr": rec["stderr"],
                         "calls": ["%s %s%s" % (op[0], " -> ".join(str(x) for x in op[1:]), "" if ok else " [failed %s]" % e) for op, ok, _, e in rec["calls"]][:80]}
-            if msg and mv_source_in_repo(w, rec) and known_registered(ctx):
-                ctx.known_hit(KNOWN_SLUG)
-                continue
             if msg:
                 ctx.violation("impl-violation", {"input": inp, "observed": observed, "expected": msg})
                 continue
             if val != "true":
                 msg2 = other(w, rec)
-                if msg2 and mv_source_in_repo(w, rec) and known_registered(ctx):
-                    ctx.known_hit(KNOWN_SLUG)
-                    continue
                 if msg2:
                     ctx.violation("impl-violation", {"input": inp, "observed": observed, "expected": msg2})
                 else:
@@ -1222,9 +1330,9 @@ def evaluate(ctx, prop, out, stats, imports=("Base.Bytes", "Model.FsOps", "Model
             what = {"covers": "check_covers (generating model vs. trace of a successful operation)",
                     "guard": "check_guard (validate_object_root / exists decides as the real commit)",
                     "mainroot": "check_main_root (object root of the new object)", "paths": "check_paths (staged root and lock file)",
-                    "hashed": "check_hashed (staging layout = 0004 defaults)"}[kind]
-            if mv_source_in_repo(w, rec) and known_registered(ctx):
-                continue
+                    "hashed": "check_hashed (staging layout = 0004 defaults)",
+                    "cdir": "check_cdir (content directory accepted / refused as create_object does)",
+                    "lpath": "check_lpath (destination accepted / refused as LogicalPath::try_from does)"}[kind]
             common.corr_break(ctx, "Corr.CheckFootprint " + what,
                               {"input": inp, "details": details.get(n), "term_head": terms[n][:600], "rc": rec["rc"], "stderr": rec["stderr"]})
     stats_out = dict(stats)
@@ -1233,6 +1341,8 @@ def evaluate(ctx, prop, out, stats, imports=("Base.Bytes", "Model.FsOps", "Model
     stats_out["coq_terms"] = len(terms)
     stats_out["covers_checked"] = sum(1 for o in owners if o[0] == "covers")
     stats_out["guard_checked"] = sum(1 for o in owners if o[0] == "guard")
+    if _abs_leftover:
+        stats_out["literal_absolute_ids_skipped_because_leftover_exists"] = list(_abs_leftover)
     ctx.coverage["ops_by_kind_outcome_injection"] = {"%s/%s/%s" % k: v for k, v in sorted(kinds.items(), key=lambda x: str(x))}
     ctx.coverage["distribution"] = stats_out
     ctx.coverage["traces_validated_against_impl"] = nrec
